@@ -197,7 +197,7 @@ impl Workload for Depth {
 pub fn run(ctx: &Ctx) -> i32 {
     let mut acc = Acc::new(ctx);
     let wl = Explore {
-        n: if ctx.quick() { 40_000 } else { 3_000_000 },
+        n: if ctx.quick() { 100_000 } else { 3_000_000 },
     };
     acc.pool(&wl, "explore", true);
     acc.pool(&Depth, "c01depth", true);
